@@ -505,6 +505,16 @@ def execute(scn, ctx):
                                         break
                                 if not matched:
                                     e0 = M.ref_ci(cands[0], est, op["alpha"], method)
+                                    extra = None
+                                    if norm == "by_min":
+                                        # signature of known finding F6: every group's replicates divided by the minimum over
+                                        # the *replicate* axis (np.min(samples, axis=0), NaN-propagating), unnormalised where 0
+                                        with np.errstate(all="ignore"):
+                                            d6 = np.min(reps, axis=0)
+                                            th6 = np.where(d6 != 0, reps / np.where(d6 != 0, d6, 1.0), reps)
+                                        e6 = M.ref_ci(th6, est, op["alpha"], method)
+                                        extra = {"f6_signature": bool(M.close(lo, e6[..., 0], 1e-9) and M.close(up, e6[..., 1], 1e-9))}
+                                    tags = dict(tags, **(extra or {}))
                                     bad("ci_same_quantity", f"lower={lo.tolist()} upper={up.tolist()} but the {method} interval of the normalised "
                                                             f"replicates (normalize={norm}) with the reported values {est.tolist()} as estimate is "
                                                             f"lower={e0[..., 0].tolist()} upper={e0[..., 1].tolist()}")
